@@ -196,7 +196,12 @@ impl LruPageCache {
         let mut page_buffer = vec![0u8; PAGE_SIZE];
         let bytes_read = match self.file_manager.read_page(file_id, page_id, &mut page_buffer) {
             Ok(bytes) => bytes,
-            Err(_) => {
+            Err(e) => {
+                // A failed read of a real, open file is an I/O error: report it
+                // and do not cache anything for this page
+                if self.file_manager.file_size(file_id).is_ok() {
+                    return Err(e);
+                }
                 // If file read fails (e.g., virtual file ID), return empty page
                 page_buffer.clear();
                 page_buffer.resize(PAGE_SIZE, 0);
